@@ -657,7 +657,7 @@ pub fn json_docs() -> Vec<String> {
 
 fn python_digests(texts: &[String]) -> Option<Vec<[String; 5]>> {
 	let script = format!("{}/oracles/digests.py", verif_root());
-	let mut child = Command::new("python3").arg(&script).stdin(std::process::Stdio::piped()).stdout(std::process::Stdio::piped()).spawn().ok()?;
+	let mut child = Command::new(crate::common::python()).arg(&script).stdin(std::process::Stdio::piped()).stdout(std::process::Stdio::piped()).spawn().ok()?;
 	{
 		let mut stdin = child.stdin.take()?;
 		let payload = serde_json::to_string(texts).ok()?;
